@@ -16,9 +16,9 @@ func init() {
 }
 
 func runC11(c *core.Ctx, r *core.Result) {
-	p, hops := plan{fullDepth: 3, coreDepth: 4, strDepth: 2, pairDepth: 0, alphabet: tm.REGE}, 2
+	p, hops := plan{dupDepth: 3, fullDepth: 3, coreDepth: 4, strDepth: 2, pairDepth: 0, alphabet: tm.REGE}, 2
 	if c.Thorough() {
-		p, hops = plan{fullDepth: 4, coreDepth: 5, strDepth: 2, pairDepth: 0, alphabet: tm.REGE}, 3
+		p, hops = plan{dupDepth: 3, fullDepth: 4, coreDepth: 5, strDepth: 2, pairDepth: 0, alphabet: tm.REGE}, 3
 	}
 	r.Bounds = fmt.Sprintf("%s; accessor vector observed before the first hop and after hops 1..%d", p, hops)
 	r.Rule = "state = (term, hop count); non-trivial = the vector carries at least one annotation (hint/detail/link/key/domain/tag/flag/code/stack) and a hop changed a layer's Go type or re-parsed a stack"
